@@ -1004,7 +1004,8 @@ def odd_extension_oracle(wt, scratch):
     from bermuda import Triangle
 
     tri = mk_triangle(wt)
-    for compress, ext in ((False, ".dat"), (False, ".tribc"), (True, ".bin"), (True, ".trib"), (False, "")):
+    for compress, ext in ((False, ".dat"), (False, ".tribc"), (True, ".bin"), (True, ".trib"), (False, ""),
+                          (False, ".TRIB"), (True, ".TRIBC"), (0, ".trib"), (1, ".tribc")):
         p = scratch.path(ext)
         det = {"check": "odd_ext", "ext": ext, "compress": compress}
         try:
